@@ -19,6 +19,11 @@ model), the return.
 
 `Wait` / `Resolve` (184-192, 233-239): the reference callback replaces the content of a
 `PromiseContainer`; `Await` returns a result that is present when it looks, or `Canceled`.
+`AddRefPromise` (168-181) as a step of its own (`COp.promise`): the same reference callback and
+`PromiseContainer`, but nobody awaits: the call stays pending (its reference is held), and the harness
+reads the container without blocking right before every quiescence line (`probeProm`, enabled in a
+quiescent state with exactly the model's content) — between the invalidation of a value and the
+arrival of its replacement the container must be empty.
 `ResolveWithReleased` (198-254): the closure of `WaitWithReleased` sets a plain promise on the first
 result and, on the first later notification that is not "same generation, resolved", starts (once) a
 goroutine that releases the reference and calls `released`. Since /repo 5e4f384 (repair of DESIGN §7
